@@ -158,6 +158,8 @@ impl Database {
     }
 
     fn send_message_to_arbiter_client(&self, message: String) {
+        #[cfg(nundb_verif)]
+        crate::verif_hooks::yield_point("watchers.read");
         let watchers = self.watchers.map.read().unwrap();
         match watchers.get(&String::from(CONFLICTS_KEY)) {
             Some(senders) => {
@@ -181,6 +183,8 @@ impl Database {
     }
 
     pub fn has_arbiter_connected(&self) -> bool {
+        #[cfg(nundb_verif)]
+        crate::verif_hooks::yield_point("watchers.read");
         let watchers = self.watchers.map.read().unwrap();
         watchers.contains_key(CONFLICTS_KEY)
     }
